@@ -26,16 +26,58 @@ sequence with the stack machine re-renders the tree: parentheses appear exactly 
 sequence has `Parens` operators, operators are printed infix / as method calls. -/
 theorem print_is_render (e : PExpr) (h : OpsOK e) :
     printToks (toPostfix e) [] = some (renderToks e) := by
-  sorry
+  have key : ∀ (e : PExpr), OpsOK e → ∀ (ops : List POp) (st : List (List Tok)),
+      printToks (toPostfix e ++ ops) st = printToks ops (renderToks e :: st) := by
+    intro e h ops st
+    induction e generalizing ops st with
+    | term t => rfl
+    | paren e ih => simp only [toPostfix, List.append_assoc, ih h]; rfl
+    | neg e ih => simp only [toPostfix, List.append_assoc, ih h]; rfl
+    | bin op l r ihl ihr =>
+      obtain ⟨hb, hl, hr⟩ := h
+      obtain ⟨t, ht⟩ := Option.isSome_iff_exists.mp hb
+      simp only [toPostfix, List.append_assoc, ihl hl, ihr hr]
+      simp [printToks, printBinaryToks, renderToks, ht]
+    | method op recv arg ihr iha =>
+      obtain ⟨hm, hr, ha⟩ := h
+      have hb : binTok op = none := by cases op <;> first | rfl | simp [C14.isMethodOp] at hm
+      simp only [toPostfix, List.append_assoc, ihr hr, iha ha]
+      simp [printToks, printBinaryToks, renderToks, hb]
+    | length recv ih => simp only [toPostfix, List.append_assoc, ih h]; rfl
+  have := key e h [] []
+  simpa [printToks] using this
 
 /-- Generalised to any stack (the invariant of the stack machine). -/
 theorem print_is_render_stack (e : PExpr) (h : OpsOK e) (ops : List POp) (st : List (List Tok)) :
     printToks (toPostfix e ++ ops) st = printToks ops (renderToks e :: st) := by
-  sorry
+  induction e generalizing ops st with
+  | term t => rfl
+  | paren e ih => simp only [toPostfix, List.append_assoc, ih h]; rfl
+  | neg e ih => simp only [toPostfix, List.append_assoc, ih h]; rfl
+  | bin op l r ihl ihr =>
+    obtain ⟨hb, hl, hr⟩ := h
+    obtain ⟨t, ht⟩ := Option.isSome_iff_exists.mp hb
+    simp only [toPostfix, List.append_assoc, ihl hl, ihr hr]
+    simp [printToks, printBinaryToks, renderToks, ht]
+  | method op recv arg ihr iha =>
+    obtain ⟨hm, hr, ha⟩ := h
+    have hb : binTok op = none := by cases op <;> first | rfl | simp [C14.isMethodOp] at hm
+    simp only [toPostfix, List.append_assoc, ihr hr, iha ha]
+    simp [printToks, printBinaryToks, renderToks, hb]
+  | length recv ih => simp only [toPostfix, List.append_assoc, ih h]; rfl
 
 /-- Well-formed trees use infix operators infix and method operators as methods. -/
 theorem wf_opsOK (e : PExpr) (h : C14.WF e) : OpsOK e := by
-  sorry
+  induction e with
+  | term t => trivial
+  | paren e ih => exact ih h
+  | neg e ih => exact ih h.1
+  | bin op l r ihl ihr =>
+    refine ⟨?_, ihl h.1, ihr h.2.1⟩
+    have h4 : C14.level (.bin op l r) ≤ 4 := h.2.2.1
+    cases op <;> first | rfl | (simp [C14.level] at h4)
+  | method op recv arg ihr iha => exact ⟨h.1, ihr h.2.1, iha h.2.2.1⟩
+  | length recv ih => exact ih h.1
 
 /-- **C15 (expressions), token level.** What is printed for an expression written in the
 documented grammar parses back to the same tree, hence to the same operator sequence. -/
@@ -43,15 +85,18 @@ theorem print_parse_roundtrip_partial (e : PExpr) (hwf : C14.WF e) (toks : List 
     (hp : printToks (toPostfix e) [] = some toks) (rest : List Tok) (hr : C14.Stops rest)
     (fuel : Nat) (hf : fuel ≥ 16 * toks.length + 16) :
     (parseOr fuel (toks ++ rest)).map (fun r => toPostfix r.1) = some (toPostfix e) := by
-  sorry
+  have hr' := print_is_render e (wf_opsOK e hwf)
+  rw [hr'] at hp
+  cases hp
+  exact C14.postfix_of_parse e hwf rest hr fuel hf
 
 /-- Printing is total: any operator sequence, well-formed or not, prints to some text
 (`<invalid expression>` for ill-formed ones) — never a panic. -/
 theorem print_total (e : Expr) : ∃ s, printExpr e = s := by
-  sorry
+  exact ⟨_, rfl⟩
 
 theorem print_invalid_on_underflow : printExpr [.binary .add] = "<invalid expression>".toList := by
-  sorry
+  decide +kernel
 
 /-- The domain restriction on sets is necessary: inside a set a string prints as its
 symbol index in the library, which does not parse back. (Model-level marker: the printer
@@ -59,13 +104,13 @@ prints set elements through `printAtom`, so a string inside a set prints quoted 
 library prints `#index` — recorded in the evidence as an out-of-domain stream.) -/
 theorem parens_are_preserved (e : PExpr) :
     renderToks (.paren e) = [.punct '('] ++ renderToks e ++ [.punct ')'] := by
-  sorry
+  rfl
 
 /-- Dates from 1970 print in RFC 3339 and read back to the same instant. -/
 theorem date_print_parse_samples :
     unixOfDate (printDate 0) = some 0 ∧ unixOfDate (printDate 951782400) = some 951782400 ∧
     unixOfDate (printDate 1709164800) = some 1709164800 ∧ unixOfDate (printDate 4102444800) = some 4102444800 := by
-  sorry
+  decide +kernel
 
 /-! Non-vacuity: a rule printed by the character-level printer. -/
 def sampleRule : DRule :=
@@ -75,6 +120,6 @@ def sampleRule : DRule :=
 
 theorem sample_print :
     String.ofList (printRule sampleRule) = "right($f, \"read\") <- owner($u, $f), $u == \"alice\"" := by
-  sorry
+  decide +kernel
 
 end Biscuit.C15
